@@ -1,19 +1,13 @@
-# Per-property configuration for bin/check.
+# Per-property configuration for bin/check: one JSON file per property in bin/props.d/.
+import glob, json, os
 COMMON_TB = [
     "correspondence harness zvh (Go, /verif/harness): calls the named entry points of /repo's working tree and canonicalises outputs",
     "the executable Gallina model is tied to the code by evaluating it (vm_compute) on the same cases the implementation ran; no extraction, no Extract Constant",
 ]
-
-PROPS = {
-    "C16": {
-        "cmd": "c16",
-        "props": "Props/C16.v",
-        "caselibs": ["Model/PrunerCases.v"],
-        "trusted_base": COMMON_TB + [
-            "modelled, not verified: key domain restricted to int64/string/null/missing; expression evaluation of non-key sub-predicates is an arbitrary oracle (POther); object metadata accuracy (min <= key <= max) is a hypothesis here and C14's obligation",
-        ],
-        "level_text": "Proof: for every filter predicate built from key/literal comparisons, and/or/not and arbitrary opaque sub-predicates, every key range and every key in it, a 'prune' verdict of the synthesised range pruner implies the filter is not true (C16_pruner_sound), hence pruned scan + filter = full scan + filter for any object list with accurate metadata (C16_pruned_scan_eq). The model (buildRangePruner, rangePrunerPred, reverseComparator, compare(), Compare/Equal/And/Or/Not evaluation incl. the constant-RHS fast path) is tied to the code by evaluating it in Coq on every predicate up to depth 2 over a 9-value key domain against the real optimizer and kernel (exhaustive in the thorough tier), and the spec is run as an oracle on real lakes (pruned query and delete-where vs full scan).",
-        "level_note": "Trusted: Coq kernel; the harness; the model covers int64/string/null/missing keys only (floats, other key types and multi-key pools are exercised only by the lake-level differential runs); metadata accuracy is assumed here (C14).",
-        "assumptions": ["Go runtime, zson parser and kernel builder behave as exercised", "object min/max metadata is accurate (checked by C14)"],
-    },
-}
+PROPS = {}
+for f in sorted(glob.glob(os.path.join(os.path.dirname(os.path.abspath(__file__)), "props.d", "C*.json"))):
+    pid = os.path.basename(f)[:-5]
+    c = json.load(open(f))
+    c["trusted_base"] = COMMON_TB + c.get("trusted_base", [])
+    PROPS[pid] = c
+NOT_APPLICABLE = {}
